@@ -393,16 +393,22 @@ func c07Counts(c *core.Ctx, tabs *Tables) {
 				return
 			}
 			cal := calleeOf(call)
-			if cal == nil || !(cal.Name() == currentName(c, "pkg/closest", "rawDistance") || cal.Name() == currentName(c, "pkg/closest", "snpDistance") || cal.Name() == currentName(c, "pkg/closest", "tn93Distance")) {
+			name := ""
+			if cal != nil && (cal.Name() == currentName(c, "pkg/closest", "rawDistance") || cal.Name() == currentName(c, "pkg/closest", "snpDistance") || cal.Name() == currentName(c, "pkg/closest", "tn93Distance")) {
+				name = cal.Name()
+			} else if cal == nil && !call.Common().IsInvoke() && isDistanceSignature(call.Common().Signature()) {
+				name = "distance function value" // the measure selected through a table of functions
+			}
+			if name == "" {
 				return
 			}
 			n++
 			args := call.Common().Args
 			qIsParam := allOrigins(args[0], func(o ssa.Value) bool { _, ok := o.(*ssa.Parameter); return ok })
 			tFromChan := allOrigins(args[1], func(o ssa.Value) bool { return fromChannel(o) })
-			c.Ob("R3/argument-roles/"+fname+"/"+cal.Name(), qIsParam && tFromChan, ins.Pos(), "distance called with (query=%s, target=%s); expected (the query parameter, the record received from the target channel)", args[0].Name(), args[1].Name())
+			c.Ob("R3/argument-roles/"+fname+"/"+name, qIsParam && tFromChan, ins.Pos(), "distance called with (query=%s, target=%s); expected (the query parameter, the record received from the target channel)", args[0].Name(), args[1].Name())
 		})
-		c.Floor("R3/argument-roles/"+fname, n, 3)
+		c.Floor("R3/argument-roles/"+fname, n, 1)
 	}
 	// the readers used for queries and targets
 	for _, entry := range []string{"Closest", "ClosestN"} {
@@ -455,4 +461,21 @@ func fromChannel(v ssa.Value) bool {
 		return false
 	}
 	return rec(v)
+}
+
+// isDistanceSignature: func(record, record) float64 over one record type of the repository.
+func isDistanceSignature(sig *types.Signature) bool {
+	if sig == nil || sig.Params().Len() != 2 || sig.Results().Len() != 1 {
+		return false
+	}
+	b, ok := sig.Results().At(0).Type().Underlying().(*types.Basic)
+	if !ok || b.Kind() != types.Float64 {
+		return false
+	}
+	a0, a1 := sig.Params().At(0).Type(), sig.Params().At(1).Type()
+	if !types.Identical(a0, a1) {
+		return false
+	}
+	n, ok := a0.(*types.Named)
+	return ok && n.Obj().Pkg() != nil && strings.HasPrefix(n.Obj().Pkg().Path(), core.ModPath)
 }
